@@ -12,6 +12,83 @@ for _i in (3, 4, 5, 6, 8, 9, 10, 11, 12, 13, 14, 15, 16, 17, 19, 20):
     NOT_APPLICABLE.setdefault(f"C{_i:02d}", _NOT_BUILT)
 
 CHECKS = {
+    "C03": {
+        "text": ("Deductive over a ghost file system (fs: path -> bytes): for each transformer pipeline (libcst, regex, XML) `apply` is verified: no "
+                 "changeset => fs unchanged; only the processed file can change; in a real run the recorded diff is text_diff/lines_diff of the "
+                 "content before and the very content written (same value on both sides); update_code writes exactly utf8(new code); the "
+                 "requirements.txt writer writes exactly the original lines (last one newline-terminated) plus one line per new requirement. "
+                 "Composition over codemods follows from apply_codemods being a sequential fold (C09)."),
+        "note": ("Trusted: difflib is a correct differ and difflines_to_str line-faithful (text_diff/lines_diff uninterpreted; bounded stand-in "
+                 "not yet built), libcst round trip parse_module(s).code == s, decode_utf8(utf8(s)) == s, no partial writes, transformers "
+                 "perform no I/O. pyproject/setup.cfg/setup.py writers: only the dynamic-dispatch clauses (dry-run, single file), not the diff."),
+        "design_ref": "DESIGN.md section 4 C03",
+    },
+    "C04": {
+        "text": ("Deductive over the ghost file system: on every path of the three pipelines' apply, update_code, DependencyWriter.write, "
+                 "RequirementsTxtWriter.add_to_file, DependencyManager.write (dry_run forwarded to the writer chosen by manifest kind), "
+                 "process_dependencies and _process_file: dry_run => fs == old(fs); the context constructor stores dry_run unchanged."),
+        "note": ("Trusted: file-system model; transformers/SAX handlers write no project file; the other three manifest writers are covered only "
+                 "through the dynamic-dispatch contract of add_to_file (assumed at the call site). The 'report of a dry run equals the report "
+                 "of a real run' half (2-safety) is NOT proved: out of reach of the delivered generator, stated in evidence."),
+        "design_ref": "DESIGN.md section 4 C04",
+    },
+    "C09": {
+        "text": ("Deductive: the context aggregates are keyed frames - add_changesets/add_failures/add_unfixed_findings/add_dependencies/"
+                 "process_results/_apply change only the running codemod's key of every aggregate (whole-view postconditions); get_* read one key; "
+                 "compile_results[i] is built from key i only; apply_codemods is a sequential fold: ghost trace == A:id1, D:id1, A:id2, D:id2, ... "
+                 "(each codemod's dependency update happens before the next codemod starts); process_dependencies touches only its codemod."),
+        "note": ("Restricted claim: read-only inputs shared between codemods (semgrep pre-filter computed once, cached package stores mutated in "
+                 "memory, functools.cache on result-file loaders) are listed as undecided dependencies; BaseCodemod.apply is used through its "
+                 "dynamic-dispatch contract."),
+        "design_ref": "DESIGN.md section 4 C09",
+    },
+    "C10": {
+        "text": ("Deductive: for every exceptional exit of read/decode/parse/transform in LibcstTransformerPipeline.apply (and read/decode in the "
+                 "regex and XML pipelines): result is None, fs unchanged, the file is appended to failures, every finding of the file is reported "
+                 "unfixed, a failed file never also gets a changeset; FileContext.add_failure/get_all_findings; process_results merges every "
+                 "file context in input order."),
+        "note": ("Trusted: any external may raise any Exception (modelled); thread pool re-raises what the worker raised. Exceptions raised after "
+                 "the guarded region (differ, final write) are declared as allowed exceptional exits (OSError/ValueError) with fs frame conditions."),
+        "design_ref": "DESIGN.md section 4 C10",
+    },
+    "C11": {
+        "text": ("Deductive, restricted: worker bound - the only thread pool BaseCodemod._apply creates has max_workers == context.max_workers "
+                 "(ghost pool_bounds), the option reaches the context unchanged; per-file frame - _process_file changes nothing of the shared "
+                 "context and only its own file on disk; aggregation happens in process_results in input order."),
+        "note": ("Thread interleavings themselves are outside this family: schedule independence is argued from the frame contracts, not "
+                 "explored. Hash-seed/enumeration-order obligations (registry, match_files) are part of C17/C05 when claimed."),
+        "design_ref": "DESIGN.md section 4 C11",
+    },
+    "C12": {
+        "text": ("Deductive: ResultSet.__or__, list_dict_or, ResultSet.__ior__ (`|=` is dispatched through the real MRO exactly as CPython does) "
+                 "equal the multiset union for every rule and file, total on disjoint keys; the four accumulators are folds of the verified merge "
+                 "over all files. BOUNDED stand-in (not counted as proved): the JSON/SARIF readers against a reference extraction on generated documents."),
+        "note": "Trusted: json library, dict insertion order; reader loops over opaque JSON are bounded only (bound stated in evidence).",
+        "design_ref": "DESIGN.md section 4 C12",
+    },
+    "C14": {
+        "text": ("Deductive, restricted: PackageStore.has_requirement compares canonical names; DependencyWriter.add returns exactly the "
+                 "not-yet-declared dependencies in order, each once; write leaves the manifest untouched when nothing is new; the requirements.txt "
+                 "writer keeps every original line and appends each requirement once; process_dependencies adds at most one changeset and writes "
+                 "nothing when no store returned a changeset."),
+        "note": "'still parses in its own format', tomlkit/poetry/setup.py/setup.cfg edits: out of reach (only their dynamic-dispatch clauses are assumed).",
+        "design_ref": "DESIGN.md section 4 C14",
+    },
+    "C15": {
+        "text": ("Deductive: compile_results returns exactly one result per executed codemod, in order, each built from that codemod's metadata and "
+                 "keys only (lemma by induction for the length); changesets from the pipelines have a project-relative path, at least one change, "
+                 "(libcst: a non-empty diff); a failed file never also has a changeset; Change validators; write_report status."),
+        "note": "Trusted: pydantic serialisation; metadata properties of BaseCodemod; update_finding_metadata through an assumed contract.",
+        "design_ref": "DESIGN.md section 4 C15",
+    },
+    "C19": {
+        "text": ("Deductive: both regex pipelines' _apply loops against recursive spec functions (same number of lines, line i is the substitution of "
+                 "original line i - or the original line when it carries no finding -, one change per altered line numbered i+1 carrying the findings of "
+                 "THAT line), the pipelines' apply (dry-run, diff faithful to what is written, unreadable file handled), XML pipeline apply."),
+        "note": "XML lexical handlers / attribute merge / whole-document preservation: not yet under contract (out of reach in this delivery); re.sub is an uninterpreted pure function.",
+        "design_ref": "DESIGN.md section 4 C19",
+    },
+
     "C20": {
         "text": ("Deductive: codemodder.run is executed symbolically on every path with each callee replaced by its contract; the returned "
                  "status / SystemExit code is proved equal to the documented status of the first applicable condition (missing directory => 1, "
